@@ -94,14 +94,14 @@ func (x *Exec) libCall(key string, fn *types.Func, call *ast.CallExpr, recvExpr 
 		nv := x.W.MkSeq(cur.Sort, Store(x.W.SeqBase(cur), Arith("+", x.W.SeqOff(cur), ln), v), x.W.SeqOff(cur), Arith("+", ln, IntLit(1)))
 		nv.GoT = cur.GoT
 		nv = x.seqUpdateFacts(nv, cur, ln, v)
-		x.assign(recvExpr, nv, env)
+		x.assignRecv(recvExpr, nv, env)
 		return []Term{False}, true
 	case "bytes.(*Buffer).Write", "bytes.(*Buffer).WriteString", "strings.(*Builder).WriteString", "strings.(*Builder).Write":
 		cur := x.eval(recvExpr, env)
 		v := arg(0)
 		nv := x.concat(cur, v, env)
 		nv.GoT = cur.GoT
-		x.assign(recvExpr, nv, env)
+		x.assignRecv(recvExpr, nv, env)
 		return []Term{x.W.SeqLen(v), False}, true
 	case "strings.(*Builder).WriteRune", "bytes.(*Buffer).WriteRune":
 		cur := x.eval(recvExpr, env)
@@ -109,7 +109,7 @@ func (x *Exec) libCall(key string, fn *types.Func, call *ast.CallExpr, recvExpr 
 		enc := x.runeToString(v, env)
 		nv := x.concat(cur, enc, env)
 		nv.GoT = cur.GoT
-		x.assign(recvExpr, nv, env)
+		x.assignRecv(recvExpr, nv, env)
 		return []Term{x.W.SeqLen(enc), False}, true
 	case "bytes.(*Buffer).Bytes", "bytes.(*Buffer).String", "strings.(*Builder).String":
 		cur := x.eval(recvExpr, env)
@@ -122,7 +122,7 @@ func (x *Exec) libCall(key string, fn *types.Func, call *ast.CallExpr, recvExpr 
 		cur := x.eval(recvExpr, env)
 		nv := x.W.MkSeq(cur.Sort, x.W.SeqBase(cur), IntLit(0), IntLit(0))
 		nv.GoT = cur.GoT
-		x.assign(recvExpr, nv, env)
+		x.assignRecv(recvExpr, nv, env)
 		return nil, true
 	case "bufio.NewReader", "bufio.NewReaderSize":
 		// a bufio.Reader is an ideal byte stream: ghost content rdData, position rdPos, and a count rdBuf of bytes
@@ -164,7 +164,7 @@ func (x *Exec) libCall(key string, fn *types.Func, call *ast.CallExpr, recvExpr 
 			Eq(x.rdBad(nv), Or(x.rdBad(cur), And(Not(ok), Not(atEnd)))),
 			And(Cmp("<=", IntLit(0), b), Cmp("<=", b, IntLit(255)))))
 		x.eofFacts(errT, atEnd, env)
-		x.assign(recvExpr, nv, env)
+		x.assignRecv(recvExpr, nv, env)
 		b.GoT = types.Typ[types.Uint8]
 		return []Term{b, errT}, true
 	case "bufio.(*Reader).Peek":
@@ -196,7 +196,7 @@ func (x *Exec) libCall(key string, fn *types.Func, call *ast.CallExpr, recvExpr 
 			Eq(x.rdBad(nv), Or(x.rdBad(cur), And(errT, Not(short)))),
 			Implies(And(Cmp(">=", x.rdBuf(cur), n), Cmp(">=", n, IntLit(0)), Not(x.rdBad(cur))), Not(errT))))
 		x.eofFacts(errT, short, env)
-		x.assign(recvExpr, nv, env)
+		x.assignRecv(recvExpr, nv, env)
 		return []Term{res, errT}, true
 	case "bufio.(*Reader).UnreadByte":
 		if x.termMode {
@@ -213,7 +213,7 @@ func (x *Exec) libCall(key string, fn *types.Func, call *ast.CallExpr, recvExpr 
 			Implies(Not(errT), And(Cmp(">=", pos, IntLit(1)), Eq(x.rdPos(nv), Arith("-", pos, IntLit(1))), Eq(x.rdBuf(nv), Arith("+", x.rdBuf(cur), IntLit(1))))),
 			Implies(errT, And(Eq(x.rdPos(nv), pos), Eq(x.rdBuf(nv), x.rdBuf(cur)))),
 			Eq(x.rdBad(nv), x.rdBad(cur))))
-		x.assign(recvExpr, nv, env)
+		x.assignRecv(recvExpr, nv, env)
 		return []Term{errT}, true
 	case "bufio.(*Scanner).Scan":
 		// a Scanner delivers finitely many tokens: every successful Scan decreases the ghost count scRem
@@ -226,7 +226,7 @@ func (x *Exec) libCall(key string, fn *types.Func, call *ast.CallExpr, recvExpr 
 		ok := x.W.Fresh("scanok", SBool)
 		rem := func(t Term) Term { return T("(scRem "+t.S+")", SInt) }
 		x.W.AddFact(env.pc, And(Cmp(">=", rem(cur), IntLit(0)), Cmp(">=", rem(nv), IntLit(0)), Implies(ok, Cmp("<", rem(nv), rem(cur))), Implies(Not(ok), Eq(rem(nv), rem(cur))), Not(x.isNilPtr(nv))))
-		x.assign(recvExpr, nv, env)
+		x.assignRecv(recvExpr, nv, env)
 		return []Term{ok}, true
 	case "bytes.NewReader":
 		// a bytes.Reader is modelled as the sequence of bytes not yet read
@@ -249,7 +249,7 @@ func (x *Exec) libCall(key string, fn *types.Func, call *ast.CallExpr, recvExpr 
 		}
 		nv := Ite(empty, cur, rest)
 		nv.GoT = cur.GoT
-		x.assign(recvExpr, nv, env)
+		x.assignRecv(recvExpr, nv, env)
 		return []Term{Ite(empty, IntLit(0), b), empty}, true
 	case "strings.(*Builder).Grow", "bytes.(*Buffer).Grow":
 		arg(0)
@@ -706,4 +706,17 @@ func (x *Exec) bufioInv(r Term, env *Env) {
 func (x *Exec) eofFacts(errT Term, atEnd Term, env *Env) {
 	c := x.W.DeclareConst("is_io_EOF!"+sanitize(errT.S), SBool)
 	x.W.AddFact(env.pc, And(Implies(And(errT, c), atEnd), Implies(And(errT, atEnd), c)))
+}
+
+// assignRecv: a library method with a pointer receiver updated its receiver; execution continues only if the
+// receiver was not nil, so the updated box is not nil either.
+func (x *Exec) assignRecv(recvExpr ast.Expr, nv Term, env *Env) {
+	x.assign(recvExpr, nv, env)
+	if t := x.cx.info.TypeOf(recvExpr); t != nil && !x.termMode {
+		if _, isPtr := t.Underlying().(*types.Pointer); isPtr {
+			pn := "isnilptr_" + sanitize(string(nv.Sort))
+			x.W.DeclareFun(pn, []Sort{nv.Sort}, SBool)
+			x.W.AddFact(env.pc, Not(T("("+pn+" "+nv.S+")", SBool)))
+		}
+	}
 }
